@@ -208,6 +208,10 @@ SURFACE_STMTS = [
     ("spaceship-pt", "PS(au::celsius_pt(R(20)), au::celsius_pt(R(5)));"), ("spaceship-pt-mixed", "PS(au::celsius_pt(R(20)), au::kelvins_pt(R(300)));"),
     # the same comparisons written the way portable user code writes them: operator<=> where the language has it, the relational
     # operators otherwise -- such a program must be accepted/rejected alike and print the same under all six configurations
+    # values of irrational magnitudes (computed by the library's own constexpr root / pi code: must be usable, and equal, everywhere)
+    ("mag-sqrt2-value", "PR(au::get_value<double>(au::root<2>(au::mag<2>())));"), ("mag-cbrt2-value", "PR(au::get_value<double>(au::root<3>(au::mag<2>())));"),
+    ("mag-pi-value", "PR(au::get_value<long double>(au::Magnitude<au::Pi>{} / au::mag<180>()));"), ("mag-rt-ratio-value", "PR(au::get_value<float>(au::root<2>(au::mag<1000>() / au::mag<7>())));"),
+    ("sqrt-unit-conv", "P(au::sqrt(au::kilo(au::meters) * au::meters)(R(3)).coerce_as(au::meters));"),
     ("ssfb", "PSF(a, b);"), ("ssfb-mixed-unit", "PSF(a, f);"), ("ssfb-mixed-both", "PSF(au::feet(23.5), a);"),
     ("ssfb-pt", "PSF(au::celsius_pt(R(20)), au::celsius_pt(R(5)));"), ("ssfb-pt-mixed", "PSF(au::celsius_pt(R(20)), au::kelvins_pt(R(100)));"),
     ("ssfb-pt-mixed-rev", "PSF(au::kelvins_pt(R(100)), au::celsius_pt(R(20)));"), ("ssfb-pt-mixed-F", "PSF(au::fahrenheit_pt(R(50)), au::celsius_pt(R(20)));"),
